@@ -273,6 +273,24 @@ fn check_config(msg: &RMsg, ts: (u32, u32), twist: u8) -> CheckResult {
             hex_short(&want[..want.len().min(40)])
         ));
     }
+    // ... and stamped again with exactly the time its storage header already carries (the ECU id of that header may
+    // be another one, e.g. a recorder's): time and the header ECU id of the message, nothing kept from the old header
+    if let Some(sh) = &m.storage_header {
+        let same_time = DltTimeStamp { seconds: sh.timestamp.seconds, microseconds: sh.timestamp.microseconds };
+        let again = guard(|| m.clone().add_storage_header(Some(same_time)).as_bytes())
+            .map_err(|p| Violation::from_panic("add_storage_header(Some(time of the existing storage header))", &p))?;
+        let mut want2 = refcodec::encode_storage(&RStorage { secs: sh.timestamp.seconds, micros: sh.timestamp.microseconds, ecu: ecu.clone() });
+        want2.extend_from_slice(&plain_bytes);
+        if again != want2 {
+            return Err(viol!(
+                "add-storage-header:restamp-same-time",
+                "add_storage_header with the time of the storage header the message already carries (stored by {:?}) gives {} but expected {}",
+                sh.ecu_id,
+                hex_short(&again[..again.len().min(40)]),
+                hex_short(&want2[..want2.len().min(40)])
+            ));
+        }
+    }
     let now = guard(|| plain.clone().add_storage_header(None).as_bytes())
         .map_err(|p| Violation::from_panic("add_storage_header(None)", &p))?;
     let want_tail = &want[12..];
